@@ -12,7 +12,12 @@ from gridrv.oracles import ode_ref
 
 PROP = "C15"
 TITLE = "ODE solvers return the solution of the stated problem under any transformation"
-REQUIRED_HOOKS = ["ode.solve_ode_ivp", "ode.solve_ode_bvp", "returned-callable:transform", "returned-callable:direct"]
+REQUIRED_HOOKS = [
+    "ode.solve_ode_ivp", "ode.solve_ode_bvp", "returned-callable:transform", "returned-callable:direct",
+    # input classes that must have been visited
+    "ivp-data:int-list", "ivp-data:int-tuple", "ivp-data:int64-array", "ivp-data:int32-array", "ivp-data:mixed-list", "bvp-data:int", "bvp-data:mixed",
+    "interval-ends:python-int", "interval:far-out", "slope:tiny", "slope:huge", "equation-scaled:small", "equation-scaled:large",
+]
 REQUIRED_FAMILIES = ["ivp-o1", "ivp-o2", "ivp-o3", "bvp-o1", "bvp-o2", "bvp-o3", "ivp-pyfloat-span"]
 BUDGET = {"quick": 900, "thorough": 9000}
 MAX_DISCARD_FRACTION = 0.05
@@ -101,12 +106,20 @@ def _param(label):
     return float(v) if "." in v else int(v)
 
 
-def build_transform(label, rng, kind, a, b):
+def _log_uniform(rng, lo, hi):
+    return float(10.0 ** rng.uniform(np.log10(lo), np.log10(hi)))
+
+
+def build_transform(label, rng, kind, a, b, slope_class="moderate"):
     """Real transform object with seeded admissible parameters for the x-interval [a, b]; returns (tf, description).
 
-    In 70 % of the cases the scale parameter is chosen so that the mean slope |r(b)-r(a)|/(b-a) of the map lies in
-    [0.5, 2] (the solver then integrates over an interval of comparable length: sharp tolerances); otherwise it is drawn freely
-    (R in [0.3, 3] etc.) and the tolerance scale accounts for the length of the transformed interval."""
+    slope_class "moderate": in 70 % of the cases the scale parameter is chosen so that the mean slope |r(b)-r(a)|/(b-a) of the
+    map lies in [0.5, 2] (the solver then integrates over an interval of comparable length: sharp tolerances); otherwise it
+    is drawn freely (R in [0.3, 3] etc.) and the tolerance scale accounts for the length of the transformed interval.
+    slope_class "tiny" / "huge": the scale parameter is chosen so that the mean slope is log-uniform in [1e-7, 1e-2] /
+    [1e2, 1e6] (LinearFinite onto tiny/huge intervals, tiny/huge R, rmin, a ...; for the InverseRTransform family the scale
+    parameter of the inner map is drawn log-uniformly over 8 decades) - the transformed leading coefficient a_K g'^K is then
+    tiny or huge but never vanishes."""
     import grid.rtransform as rt
 
     p = _param(label)
@@ -114,14 +127,23 @@ def build_transform(label, rng, kind, a, b):
     base = label[8:-1] if inv else label
     name = base.split("(")[0]
     L = b - a
-    slope = float(rng.uniform(0.5, 2.0))
-    normalised = bool(rng.random() < 0.7)
+    extreme = slope_class != "moderate"
+    if slope_class == "tiny":
+        slope = _log_uniform(rng, 1e-7, 1e-2)
+    elif slope_class == "huge":
+        slope = _log_uniform(rng, 1e2, 1e6)
+    else:
+        slope = float(rng.uniform(0.5, 2.0))
+    normalised = bool(rng.random() < 0.7) or extreme
     if inv:
         rmin = float(rng.uniform(-0.3, 0.0))
-        R = float(rng.uniform(1.0, 4.0))
+        R = _log_uniform(rng, 1e-2, 1e6) if extreme else float(rng.uniform(1.0, 4.0))
     else:
         rmin = float(rng.uniform(0.0, 0.5))
         R = float(rng.uniform(0.3, 3.0))
+        if extreme and rng.random() < 0.5:
+            rmin = 0.0
+    far = max(6.0, b)  # right end of the region the interval was drawn from (6, or further out)
 
     def unit_span(make):  # |phi(b) - phi(a)| of the map with unit scale parameter
         t = make(1.0)
@@ -139,32 +161,34 @@ def build_transform(label, rng, kind, a, b):
             R = L * slope / unit_span(make)
         tf, d = make(R), {"rmin": rmin, "R": R}
     elif name == "HandyMod":
-        # admissible (increasing, pole-free) iff rmax - rmin > 2^m - 1
-        rmax = rmin + 2.0**p - 1.0 + float(rng.uniform(1.0, 20.0))
+        # admissible (increasing, pole-free) iff rmax - rmin > 2^m - 1 (so only moderate or huge ranges exist)
+        rmax = rmin + 2.0**p - 1.0 + (_log_uniform(rng, 1.0, 1e7) if extreme else float(rng.uniform(1.0, 20.0)))
         if inv:
-            rmax = max(rmax, 6.5 + float(rng.uniform(0.0, 10.0)))
+            rmax = max(rmax, far + 0.5 + (_log_uniform(rng, 1.0, 1e7) if extreme else float(rng.uniform(0.0, 10.0))))
         tf, d = rt.HandyModRTransform(rmin, rmax, p), {"rmin": rmin, "rmax": rmax}
     elif name == "LinearFinite":
         if inv:
-            rmin, rmax = float(rng.uniform(-0.3, 0.05)), float(rng.uniform(6.2, 12.0))
+            rmin = float(rng.uniform(-0.3, 0.05))
+            rmax = far + 0.2 + (_log_uniform(rng, 1.0, 1e7) if extreme else float(rng.uniform(0.0, 5.8)))
         else:
-            rmin = float(rng.uniform(-1.0, 1.0))
+            rmin = 0.0 if (extreme and rmin == 0.0) else float(rng.uniform(-1.0, 1.0))
             rmax = rmin + (2.0 * slope if normalised else float(rng.uniform(0.5, 10.0)))
         tf, d = rt.LinearFiniteRTransform(rmin, rmax), {"rmin": rmin, "rmax": rmax}
     elif name == "Identity":
         tf, d = rt.IdentityRTransform(), {}
     elif name == "LinearInfinite":
-        rmin, bb = float(rng.uniform(0.0, 1.0)), float(rng.uniform(3.0, 10.0))
+        bb = float(rng.uniform(0.5, 1.7)) * far
+        rmin = 0.0 if (extreme and rmin == 0.0) else float(rng.uniform(0.0, 1.0))
         rmax = rmin + (bb * slope if normalised else float(rng.uniform(1.0, 10.0)))
         tf, d = rt.LinearInfiniteRTransform(rmin, rmax, bb), {"rmin": rmin, "rmax": rmax, "b": bb}
     elif name == "Exp":
-        bb, ratio = float(rng.uniform(3.0, 10.0)), float(rng.uniform(5.0, 100.0))
+        bb, ratio = float(rng.uniform(0.5, 1.7)) * far, float(rng.uniform(5.0, 100.0))
         rmin = float(rng.uniform(0.05, 0.5))
         if normalised:
             rmin = L * slope / unit_span(lambda q: rt.ExpRTransform(1.0, ratio, bb))
         tf, d = rt.ExpRTransform(rmin, rmin * ratio, bb), {"rmin": rmin, "rmax": rmin * ratio, "b": bb}
     elif name == "Power":
-        bb, power = float(rng.uniform(3.0, 10.0)), float(rng.uniform(2.0, 3.5))
+        bb, power = float(rng.uniform(0.5, 1.7)) * far, float(rng.uniform(2.0, 3.5))
         rmin = float(rng.uniform(0.05, 0.5))
         if normalised:
             rmin = L * slope / unit_span(lambda q: rt.PowerRTransform(1.0, (bb + 1.0) ** power, bb))
@@ -172,14 +196,17 @@ def build_transform(label, rng, kind, a, b):
     elif name == "Hyperbolic":
         aa = slope if normalised else float(rng.uniform(0.3, 3.0))
         # the class requires b*(number of points - 1) < 1 for every array it sees: IVP sees <= NPTS points,
-        # BVP sees the whole adaptive mesh (bounded by max_nodes = BVP_NODES_HYPERBOLIC)
-        bb = float(rng.uniform(0.005, 0.02)) if kind == "ivp" else float(rng.uniform(0.5, 0.9)) / BVP_NODES_HYPERBOLIC
+        # BVP sees the whole adaptive mesh (bounded by max_nodes = BVP_NODES_HYPERBOLIC); the pole 1/b stays beyond 8x the interval
+        bb = float(rng.uniform(0.03, 0.12)) / far
+        if kind == "bvp":
+            bb = min(bb, float(rng.uniform(0.5, 0.9)) / BVP_NODES_HYPERBOLIC)
         tf, d = rt.HyperbolicRTransform(aa, bb), {"a": aa, "b": bb}
     else:
         raise ValueError(label)
     if p is not None:
         d["k" if name == "Knowles" else "m"] = p
     d["normalised_slope"] = normalised
+    d["slope_class"] = slope_class
     if inv:
         tf = rt.InverseRTransform(tf)
     return tf, d
@@ -273,29 +300,68 @@ def run_case(ctx, family, params):
     order = int(params["order"]) if pyfloat else int(family[-1])
     tol, label, method = float(params["tol"]), params["tf"], params.get("method")
     cls = dict(TRANSFORMS)[label]
-    lo, hi = (-0.9, 0.9) if cls == "A" else (0.1, 6.0)
     short = kind == "bvp" and order == 3
-    # interval + transform parameters: redrawn (shorter each time) until the slope of the map varies by at most RHO_MAX over
-    # the interval - beyond that the transformed ODE has a nearby branch point / huge stiffness ratio and the adaptive
-    # solvers' own error estimates (not the library) become unreliable (measured: DOP853 error 0.04 at tol 1e-6, rho 1700)
+    # ---- input classes drawn per case (all from the case rng; counted in the evidence, the important ones are required hooks)
+    u = rng.random()
+    slope_class = "tiny" if u < 0.10 else ("huge" if u < 0.16 else "moderate")  # magnitude of the slope g' of the map
+    far_out = bool(cls == "B" and rng.random() < 0.15)  # interval far from the origin (up to 2000) for the [0, inf) maps
+    int_ends = bool(cls == "B" and not far_out and not pyfloat and rng.random() < 0.25)  # interval ends are Python ints
+    u = rng.random()  # the same equation multiplied by a common factor (solution unchanged)
+    lam = _log_uniform(rng, 1e-18, 1e-6) if u < 0.20 else (_log_uniform(rng, 1e6, 1e12) if u < 0.30 else 1.0)
+    if kind == "ivp":
+        data_form = str(rng.choice(DATA_FORMS_IVP, p=DATA_FORMS_IVP_P))
+    else:
+        data_form = str(rng.choice(["float", "float", "int", "mixed"]))
+    # interval + transform parameters: redrawn (shorter each time) until the map is admissible on the interval:
+    # (i) its slope varies by at most RHO_MAX - beyond that the transformed ODE has a nearby branch point / huge stiffness
+    #     ratio and the adaptive solvers' own error estimates (not the library) become unreliable (measured: DOP853 error
+    #     0.04 at tol 1e-6, rho 1700);
+    # (ii) it is invertible in floating point: positions are recovered from r to within eps*|r|/|g'|, required <= 2e-10
+    #     (saturating maps far out: r = 1 - 1e-9 carries no information about x).
     L0 = float(rng.uniform(0.5, 1.0)) if short else float(rng.uniform(0.6, 1.8 if cls == "A" else 2.5))
-    for attempt in range(40):
+    for attempt in range(60):
         L = max(0.25, L0 * 0.9**attempt)
-        a = float(rng.uniform(lo, hi - L))
+        if int_ends:
+            L = 1 if (short or rng.random() < 0.5) else 2
+            a = int(rng.integers(1, 6 - L + 1))
+        elif far_out:
+            a = _log_uniform(rng, 6.0, 2000.0)
+        else:
+            lo, hi = (-0.9, 0.9) if cls == "A" else (0.1, 6.0)
+            a = float(rng.uniform(lo, hi - L))
         b = a + L
-        tf, tfdesc = build_transform(label, rng, kind, a, b)
-        g1 = np.array([ode_ref.map_derivs(tf, x, nmax=1)[0] for x in np.linspace(a, b, 9)])
+        tf, tfdesc = build_transform(label, rng, kind, float(a), float(b), slope_class)
+        with np.errstate(all="ignore"):
+            g1 = np.array([ode_ref.map_derivs(tf, x, nmax=1)[0] for x in np.linspace(a, b, 9)])
+            rends = np.abs(np.asarray(tf.transform(np.array([float(a), float(b)])), dtype=float))
+        if not (np.all(np.isfinite(g1)) and np.all(np.isfinite(rends)) and np.all(g1 != 0.0)):
+            continue
         rho = float(np.max(np.abs(g1)) / np.min(np.abs(g1)))
-        if rho <= RHO_MAX and np.all(g1 * g1[0] > 0):
+        if rho <= RHO_MAX and np.all(g1 * g1[0] > 0) and np.finfo(float).eps * float(rends.max()) <= 2e-10 * float(np.min(np.abs(g1))):
             break
     else:
-        ctx.discard("generator: no interval with slope ratio <= RHO_MAX")
+        ctx.discard("generator: no admissible interval for this map")
         return
     ctx.count("interval_redraws", attempt)
     mode = str(rng.choice(["callable", "callable", "mixed", "const"]))
     pr = ode_ref.random_problem(rng, order, xc=0.5 * (a + b), kind=kind, constant=(mode == "const"))
+    pr.lam = lam
     if mode == "const":
         mode = str(rng.choice(["array", "list", "mixed", "callable"]))
+    backward = bool(kind == "ivp" and rng.random() < 0.25)
+    # prescribed data in integer form: the manufactured solution gets a polynomial correction that makes the prescribed
+    # values integers (f follows), so that they can be handed over as Python ints / integer arrays
+    if kind == "ivp":
+        spec = [(1 if backward else 0, k) for k in range(order)]
+    else:
+        spec = _bvp_spec(rng, order)
+    int_values = None
+    if data_form not in ("float", "float-list", "float-array"):
+        int_values = ode_ref.integerise(pr, [((a, b)[e], k) for e, k in spec], rng)
+    for key, on in (("slope:" + slope_class, slope_class != "moderate"), ("interval:far-out", far_out), ("interval-ends:python-int", int_ends),
+                    ("equation-scaled:small", lam < 1.0), ("equation-scaled:large", lam > 1.0), (f"{kind}-data:{data_form}", True)):
+        if on:
+            ctx.hit(key)
     subject = f"{kind}:{label}"
     esubj = f"{kind}-{method}:order{order}:{label}" if kind == "ivp" else f"bvp:order{order}:{label}"  # subject of exceptions
     if pyfloat:
@@ -305,42 +371,51 @@ def run_case(ctx, family, params):
     ctx.case_note("transform", tfdesc)
     ctx.count(f"coeff_mode:{mode}")
 
-    backward = bool(kind == "ivp" and rng.random() < 0.25)
-    xs = np.concatenate(([a, b], np.sort(rng.uniform(a, b, NPTS - 2))))
+    xs = np.concatenate(([float(a), float(b)], np.sort(rng.uniform(a, b, NPTS - 2))))
     exact = pr.exact(xs)  # (K, N)
 
     # derivatives of the implemented map from its forward map only (never tf.deriv*)
     g = np.array([ode_ref.map_derivs(tf, x) for x in xs])  # (N, 2)
     g_end = {0: g[0, 0], 1: g[1, 0]}
     direction = 0 if kind == "bvp" else (-1 if backward else 1)
-    scale_d = _scales(pr, xs, exact, None, order, direction)
-    scale_t = np.maximum(_scales(pr, xs, exact, g, order, direction), scale_d)
+    with np.errstate(all="ignore"):
+        rab = np.asarray(tf.transform(np.array([float(a), float(b)])), dtype=float)
+    rlen = abs(float(rab[1] - rab[0]))  # length of the interval the transformed solve integrates over
+    scale_d = _scales(pr, xs, exact, None, order, direction, b - a)
+    scale_t = np.maximum(_scales(pr, xs, exact, g, order, direction, rlen), scale_d)
     ctx.case_note("scale_direct", [float(s) for s in scale_d])
     ctx.case_note("scale_transformed", [float(s) for s in scale_t])
-    info = {"tol": tol, "method": method, "tf": tfdesc, "interval": [a, b], "coeff_mode": mode, "slope_ratio": rho}
+    info = {"tol": tol, "method": method, "tf": tfdesc, "interval": [a, b], "coeff_mode": mode, "slope_ratio": rho, "lam": lam, "data_form": data_form, "slope": float(np.median(np.abs(g[:, 0])))}
+    ctx.case_note("lam", lam)
+    ctx.case_note("data_form", data_form)
 
     try:
         if kind == "ivp":
             x0, x1 = (b, a) if backward else (a, b)
             i0 = 1 if backward else 0
             y0 = [float(v) for v in exact[:, i0]]
-            y0_arg = y0 if rng.random() < 0.5 else np.array(y0)
+            y0_arg = _ivp_data(data_form, y0, int_values)
             # interval ends as NumPy floats or plain Python floats (family ivp-pyfloat-span: always Python floats; the
             # derivative methods of LinearInfinite / Hyperbolic use x.size, fixed in 1e13ca4)
             np_span = (not pyfloat) and rng.random() < 0.5
             span = (np.float64(x0), np.float64(x1)) if np_span else (float(x0), float(x1))
+            if int_ends:
+                span = (int(x0), int(x1))  # the documented "(int, int)"
             nod = bool(order >= 2 and rng.random() < 0.15)
             kw = {"method": method, "rtol": tol, "atol": tol}
             sol_d = _call(ctx, esubj + ":direct", gode.solve_ode_ivp, span, pr.fx_callback(), pr.coeff_arg(mode), y0_arg, **kw)
             sol_t = _call(ctx, esubj, gode.solve_ode_ivp, span, pr.fx_callback(), pr.coeff_arg(mode), y0_arg, tf, no_derivatives=nod, **kw)
-            cond = [(i0, k, y0[k]) for k in range(order)]
+            cond = [(i0, k, y0[k] if int_values is None else int_values[k]) for k in range(order)]
             ctx.count("ivp-backward" if backward else "ivp-forward")
         else:
-            cond, bd_direct, bd_tf = _bvp_conditions(rng, order, exact, g_end)
+            cond, bd_direct, bd_tf = _bvp_conditions(rng, spec, exact, g_end, data_form, int_values)
             n0 = int(rng.integers(8, 30))
             mesh = np.linspace(a, b, n0)
             if rng.random() < 0.5:
                 mesh[1:-1] += rng.uniform(-0.3, 0.3, n0 - 2) * (b - a) / (n0 - 1)
+            if int_ends and b - a >= 2 and rng.random() < 0.5:
+                mesh = np.arange(a, b + 1)  # integer ndarray as initial mesh
+                n0 = mesh.size
             guess = None if rng.random() < 0.6 else np.zeros((order, n0))
             nod = bool(order >= 2 and rng.random() < 0.15)
             kw = {"tol": tol, "max_nodes": BVP_NODES_HYPERBOLIC if label == "Hyperbolic" else 5000, "initial_guess_y": guess}
@@ -400,7 +475,7 @@ def run_case(ctx, family, params):
         xs2[2:-1] = np.sort(rng.uniform(a, b, NPTS - 3))
         exact2 = pr.exact(xs2)
         g2 = np.array([ode_ref.map_derivs(tf, x) for x in xs2])
-        scale2 = np.maximum(_scales(pr, xs2, exact2, g2, order, direction), _scales(pr, xs2, exact2, None, order, direction))
+        scale2 = np.maximum(_scales(pr, xs2, exact2, g2, order, direction, rlen), _scales(pr, xs2, exact2, None, order, direction, b - a))
         try:
             y2 = _call(ctx, esubj + ":returned-callable:second-point-set", lambda: np.asarray(sol_t(xs2.copy())))
         except _NoConvergence:
@@ -416,13 +491,8 @@ def run_case(ctx, family, params):
 COND_FACTOR = 10.0
 
 
-def _bvp_conditions(rng, order, exact, g_end):
-    """Well-posed boundary conditions (DESIGN C15).  Returns (cond, bd_direct, bd_transformed):
-    cond = [(end, k, exact y^(k)(x_end))]; derivative VALUES for the transformed call are converted to the new
-    variable as the API documents (dY/dr = y'(x)/g'(x))."""
-    ya = {k: float(exact[k, 0]) for k in range(order)}
-    yb = {k: float(exact[k, 1]) for k in range(order)}
-    val = {0: ya, 1: yb}
+def _bvp_spec(rng, order):
+    """Which derivative is prescribed at which end - the well-posed combinations of DESIGN C15."""
     if order == 1:
         spec = [(int(rng.integers(0, 2)), 0)]
     elif order == 2:
@@ -431,15 +501,55 @@ def _bvp_conditions(rng, order, exact, g_end):
         spec = [[(0, 0), (0, 1), (1, 0)], [(1, 0), (1, 1), (0, 0)]][int(rng.integers(0, 2))]
     if rng.random() < 0.5:
         spec = spec[::-1]
-    cond = [(e, k, val[e][k]) for e, k in spec]
+    return spec
+
+
+def _bvp_conditions(rng, spec, exact, g_end, data_form, int_values):
+    """Returns (cond, bd_direct, bd_transformed): cond = [(end, k, exact y^(k)(x_end))]; derivative VALUES for the
+    transformed call are converted to the new variable as the API documents (dY/dr = y'(x)/g'(x)).
+    data_form "int": every prescribed value of the direct call (and the function values of the transformed call) is a Python
+    int; "mixed": function values ints, derivative values floats; "float": floats."""
+    if int_values is None:
+        cond = [(e, k, float(exact[k, e])) for e, k in spec]
+    else:
+        cond = [(e, k, int(n)) for (e, k), n in zip(spec, int_values)]
     as_tuple = rng.random() < 0.5
     mk = (lambda e, k, v: (e, k, v)) if as_tuple else (lambda e, k, v: [e, k, v])
-    bd_direct = [mk(e, k, v) for e, k, v in cond]
-    bd_tf = [mk(e, k, v if k == 0 else v / g_end[e]) for e, k, v in cond]
+
+    def form(k, v):
+        if data_form == "int" or (data_form == "mixed" and k == 0):
+            return int(v)
+        return float(v)
+
+    bd_direct = [mk(e, k, form(k, v)) for e, k, v in cond]
+    bd_tf = [mk(e, k, form(k, v) if k == 0 else float(v) / g_end[e]) for e, k, v in cond]
     return cond, bd_direct, bd_tf
 
 
-def _scales(pr, xs, exact, g, order, direction):
+DATA_FORMS_IVP = ["float-list", "float-array", "int-list", "int-tuple", "int64-array", "int32-array", "mixed-list"]
+DATA_FORMS_IVP_P = [0.25, 0.25, 0.1, 0.1, 0.1, 0.1, 0.1]
+
+
+def _ivp_data(form, y0, ints):
+    """The initial data in the form the caller might write them (the API documents `list[K] or ndarray(K)`)."""
+    if form == "float-list":
+        return list(y0)
+    if form == "float-array":
+        return np.array(y0)
+    if form == "int-list":
+        return [int(n) for n in ints]
+    if form == "int-tuple":
+        return tuple(int(n) for n in ints)
+    if form == "int64-array":
+        return np.array(ints, dtype=np.int64)
+    if form == "int32-array":
+        return np.array(ints, dtype=np.int32)
+    if form == "mixed-list":
+        return [int(n) if k % 2 == 0 else float(n) for k, n in enumerate(ints)]
+    raise ValueError(form)
+
+
+def _scales(pr, xs, exact, g, order, direction, length=1.0):
     """Per derivative order: magnitude, in the ORIGINAL variable, of the error a solver working to within tol may leave.
 
     Model (standard global-error representation): the solver commits, at every position s, a local error of at most
@@ -449,14 +559,17 @@ def _scales(pr, xs, exact, g, order, direction):
     it is carried to position t by the propagator Phi(t, s) of the homogeneous ODE (computed here by an independent tight
     integration of the companion system in the original variable).  scale_k = max_{s,t} sum_j |Phi(t,s)|_kj v_j(s), s ranging
     over the positions passed before t (IVP, direction +1/-1) or over the whole interval (BVP, direction 0).
-    `g` None = direct solve (M = identity)."""
+    `g` None = direct solve (M = identity).
+    BVP (direction 0): SciPy's collocation solver bounds the RESIDUAL of Y^(j)' relative to 1+|Y^(j)'|, i.e. an error density
+    per unit length of the variable it integrates over; `length` = |r(b)-r(a)| of that variable, and v is multiplied by
+    max(1, length) (measured: order-1 BVP through a map of slope 1.9e3, error 29*tol)."""
     n = xs.size
-    v = 1.0 + np.abs(exact)  # (K, n)
+    v = (1.0 + np.abs(exact)) * (max(1.0, float(length)) if direction == 0 else 1.0)  # (K, n)
     if g is not None and order > 1:
         for i in range(n):
             m = ode_ref.bell_matrix(g[i, 0], g[i, 1], order - 1)
             yr = np.linalg.solve(m, exact[1:, i])
-            v[1:, i] = np.abs(m) @ (1.0 + np.abs(yr))
+            v[1:, i] = (np.abs(m) @ (1.0 + np.abs(yr))) * (max(1.0, float(length)) if direction == 0 else 1.0)
     phi = ode_ref.propagators(pr, xs)  # (n, K, K): Phi(xs[i], xs[0])
     inv = np.linalg.inv(phi)
     P = np.abs(np.einsum("tkl,slj->tskj", phi, inv))  # |Phi(t, s)|
